@@ -167,6 +167,9 @@ class Program:
             raise AnalysisError(f"class {name}: {len(cs)} definitions found (anchor vanished or ambiguous)")
         return cs[0]
 
+    def classes_in(self, file: str) -> List[ClassInfo]:
+        return [c for c in self.classes if c.file == file]
+
     def classes_named(self, name: str) -> List[ClassInfo]:
         return [c for c in self.classes if c.name == name]
 
